@@ -323,15 +323,33 @@ type interaction struct {
 // DeclaredPathProps maps a path prefix to the property a Path directive declares for it.
 func (m *Model) DeclaredPathProps() map[string]*SProp {
 	out := map[string]*SProp{}
+	pj := &projector{m: m}
 	add := func(path string, decl *SNode) {
 		if decl == nil {
 			return
 		}
+		// the body may be a reference to an object type (through aliases) and may inherit properties (allOf)
+		for hops := 0; decl != nil && decl.Kind == "ref" && hops < 10; hops++ {
+			t := m.TypeByName(decl.Ref)
+			if t == nil {
+				return
+			}
+			decl = t.Schema
+		}
+		if decl == nil || decl.Kind != "object" {
+			return
+		}
+		props, from := pj.FlatProps(decl)
 		prefixes, names := PathParams(path)
-		for _, pr := range decl.Props {
+		for k, pr := range props {
 			for i := range names {
 				if names[i] == pr.Key {
 					if _, ok := out[prefixes[i]]; !ok {
+						if from[k] != "" {
+							cp := *pr
+							cp.From = from[k]
+							pr = &cp
+						}
 						out[prefixes[i]] = pr
 					}
 				}
@@ -362,7 +380,7 @@ func (p *projector) pathVariables(path string, decl map[string]*SProp) *jsonx.No
 			continue
 		}
 		k := names[i]
-		ch = append(ch, p.content(pr.Node, &k, "", false))
+		ch = append(ch, p.content(pr.Node, &k, pr.From, false))
 		p.used(pr.Node, &used)
 	}
 	if len(ch) == 0 {
